@@ -6,7 +6,9 @@
      rmv v     : integers in untyped slots already have the type an untyped slot gives them (int, or uint64 above MaxInt64)
    So decoding v's document into an untyped variable (whose contents satisfy rmv by construction: the
    unmarshaller only produces such values) and marshalling that again is a fixpoint; the first round may
-   re-type numbers (C12's own exception list).  The byte level adds the codec round trips C02 / C03+C05. *)
+   re-type numbers (C12's own exception list).  The byte level adds the codec round trips C02 / C03+C05.
+   [atlas_wf] allows struct maps, transforms (kinds 1..9), keyed unions and map morphisms; [domb] is the
+   domain described in Properties_C01.v. *)
 From Coq Require Import List ZArith.
 Require Import Tok GoVal Marshal Unmarshal ObjProof RoundTripProof.
 Import ListNotations.
